@@ -1,6 +1,7 @@
 import GitAiModel.Driver.Json
 import GitAiModel.Driver.NoteFormat
 import GitAiModel.Model.BlameOverlay
+import GitAiModel.Model.BlameRange
 namespace GitAi.Driver.BlameOverlayD
 open Lean GitAi GitAi.Driver GitAi.NoteFormat GitAi.GitPath GitAi.BlameOverlay
 
@@ -80,6 +81,17 @@ def insertKV (k : Nat) (v : Str) : List (Nat × Str) → List (Nat × Str)
 
 def canon (l : List (Nat × Str)) : List (Nat × Str) := l.foldl (fun acc x => insertKV x.1 x.2 acc) []
 
+/-- `line_prompt_hashes` as a map: insert for an AI row, remove for any other; keys ascending -/
+def removeK (k : Nat) : List (Nat × Str) → List (Nat × Str)
+  | [] => []
+  | (k', v') :: rest => if k = k' then rest else (k', v') :: removeK k rest
+
+def canonAi (out : List (BlameLine × Label)) : List (Nat × Str) :=
+  out.foldl (fun acc x =>
+    match x.2 with
+    | .ai h _ => insertKV x.1.final h acc
+    | _ => removeK x.1.final acc) []
+
 def dedup (l : List Str) : List Str := l.foldl (fun acc x => if acc.contains x then acc else acc ++ [x]) []
 
 def jPair (x : Nat × Str) : Json := jArr [jNat x.1, jStr x.2]
@@ -111,6 +123,19 @@ def handle (op : String) (j : Json) : Option (Except String Json) :=
   | "bo_render" => some do
       let gs ← (← getArrField j "groups").toList.mapM groupOf
       pure (jObj [("lines", jArr ((renderLinePorcelain (boolFieldD j "full" true) gs).map jStr))])
+  | "bo_range" => some do
+      let a ← getStrField j "arg"
+      let jr : Option (Nat × Nat) → Json := fun r =>
+        match r with
+        | none => Json.null
+        | some (s, e) => jArr [jNat s, jNat e]
+      let base := [("range", jr (GitAi.BlameRange.parseLineRange a))]
+      match j.getObjVal? "total" with
+      | .ok t =>
+        match t.getNat? with
+        | .ok total => pure (jObj (base ++ [("resolved", jr (GitAi.BlameRange.lArg total a))]))
+        | .error _ => pure (jObj base)
+      | .error _ => pure (jObj base)
   | "bo_overlay" => some do
       let ls ← linesOf j
       let notes ← (← getArrField j "notes").toList.mapM noteOf
@@ -124,13 +149,16 @@ def handle (op : String) (j : Json) : Option (Except String Json) :=
         let outL := overlayL notes foreign blamed split
         let la := canon (overlay o notes foreign blamed split)
         let keys := dedup (promptKeys notes foreign blamed split)
-        let jl := jsonLines la keys
+        let ai := canonAi outL
+        let jl := jsonLines ai
         pure (jObj [("ok", jObj [
           ("hunks", jArr (hs.map jHunk)),
           ("split_hunks", jArr (split.map jHunk)),
           ("labels", jArr (outL.map labelJson)),
           ("line_authors", jArr (la.map jPair)),
           ("prompt_keys", jArr (keys.map jStr)),
+          ("line_prompt_hashes", jArr (ai.map jPair)),
+          ("show_prompt", jArr ((showPromptRows o outL hs).map jPair)),
           ("json_lines", jArr (jl.map fun x => jArr [jStr x.1, jStr x.2])),
           ("default", jArr ((defaultRows la hs).map fun r =>
               jArr [jNat r.1, jStr r.2.1, jBool r.2.2.1, jStr r.2.2.2])),
